@@ -116,6 +116,37 @@ _FINDINGS = []
 _MATCHERS = {}
 
 
+class CaseTimeout(BaseException):
+    """raised inside a case by the CPU-time watchdog (BaseException: harness code that catches Exception lets it pass)"""
+
+
+def _on_vtalrm(signum, frame):
+    raise CaseTimeout()
+
+
+def run_case(sub, case):
+    """sub.run(case) under a CPU-time watchdog: an execution that does not terminate is a reported outcome, not a hang
+    of the checker.  Limit: sub.case_cpu_limit seconds of user CPU time (default 300; VERIF_CASE_CPU_S overrides)."""
+    import signal
+    limit = float(os.environ.get("VERIF_CASE_CPU_S", getattr(sub, "case_cpu_limit", 300.0)))
+    signal.signal(signal.SIGVTALRM, _on_vtalrm)
+    signal.setitimer(signal.ITIMER_VIRTUAL, limit)
+    try:
+        try:
+            out = sub.run(case)
+        finally:
+            signal.setitimer(signal.ITIMER_VIRTUAL, 0)
+    except CaseTimeout:
+        out = Outcome()
+        out.fail("execution did not terminate within %g s of CPU time" % limit, "terminates", "still running",
+                 kind="timeout", timeout=True)
+    except Exception:  # a crash of the harness itself is reported as a discrepancy
+        out = Outcome()
+        out.fail("harness/implementation raised outside the oracle: " + traceback.format_exc(limit=6),
+                 harness_exception=True)
+    return out
+
+
 def _work(job):
     si, lo, hi = job
     sub = _SUBS[si]
@@ -132,12 +163,7 @@ def _work(job):
     samples = []
     for i in range(lo, hi):
         case = sub.case(i)
-        try:
-            out = sub.run(case)
-        except Exception:  # a crash of the harness itself is reported as a discrepancy
-            out = Outcome()
-            out.fail("harness/implementation raised outside the oracle: " + traceback.format_exc(limit=6),
-                     harness_exception=True)
+        out = run_case(sub, case)
         ev += 1
         for k in out.nontrivial:
             nontriv.add(k if isinstance(k, int) else h64(k))
@@ -440,8 +466,8 @@ def _replay(prop, mod, subs, path, findings, matchers):
             print("HARNESS-ERROR replay case does not match the alphabet of this tier/seed "
                   "(use the tier/seed recorded in the file: tier=%s seed=%s)" % (rec.get("tier"), rec.get("seed")))
             return 2
-    o1 = sub.run(case)
-    o2 = sub.run(case)
+    o1 = run_case(sub, case)
+    o2 = run_case(sub, case)
     if [d["message"] for d in o1.disc] != [d["message"] for d in o2.disc]:
         print("HARNESS-ERROR replay is not deterministic")
         return 2
